@@ -1389,7 +1389,9 @@ func (p *parser) optionalIdentifier(name string) bool {
 }
 
 func decodeString(s string) <-chan rune {
-	c := make(chan rune)
+	// The channel has room for all runes of the string, so that the goroutine
+	// below can always finish, even if the reader stops early (parse error).
+	c := make(chan rune, len(s))
 	go func() {
 		s := s[1 : len(s)-1]
 		escape := false
